@@ -367,6 +367,66 @@ fn typed_then_stream_first_dropped() -> String {
     r.unwrap_or_else(|_| "PANIC".to_string())
 }
 
+/// C04: small combinator expressions against what they are documented to mean (expectations written by hand).
+/// Each step lists the effects (sorted) and the events (in order) that surfaced, `;` separates steps; after each
+/// step every pending request is answered with 5, 6, 7, ... in order of operation number.
+fn c04_run(mut cmd: Command<Effect, Event>) -> String {
+    let r = std::panic::catch_unwind(std::panic::AssertUnwindSafe(|| {
+        let mut steps = Vec::new();
+        let mut answer = 5u8;
+        for _ in 0..5 {
+            let mut reqs: Vec<Request<Op>> = cmd.effects().filter_map(|e| if let Effect::Op(r) = e { Some(r) } else { None }).collect();
+            let mut ops: Vec<u8> = reqs.iter().map(|r| r.operation.0).collect();
+            ops.sort_unstable();
+            let evs: Vec<u8> = cmd.events().map(|e| if let Event::Got(v) = e { v } else { 255 }).collect();
+            steps.push(format!("e{ops:?}v{evs:?}"));
+            reqs.sort_by_key(|r| r.operation.0);
+            let mut any = false;
+            for mut r in reqs {
+                if !is_notification(r.operation.0) && r.resolve(answer).is_ok() {
+                    any = true;
+                }
+                answer += 1;
+            }
+            if !any {
+                break;
+            }
+        }
+        format!("{} done={}", steps.join(";"), cmd.is_done())
+    }));
+    r.unwrap_or_else(|_| "PANIC".to_string())
+}
+
+fn ev(v: u8) -> Command<Effect, Event> {
+    Command::event(Event::Got(v))
+}
+fn note(op: u8) -> Command<Effect, Event> {
+    Command::notify_shell(Op(op)).into()
+}
+fn req(op: u8) -> Command<Effect, Event> {
+    Command::request_from_shell(Op(op)).then_send(Event::Got)
+}
+
+fn c04_scenarios() -> Vec<(&'static str, String, &'static str)> {
+    vec![
+        ("typed-c04-done", c04_run(Command::done()), "e[]v[] done=true"),
+        ("typed-c04-event", c04_run(ev(1)), "e[]v[1] done=true"),
+        ("typed-c04-notify", c04_run(note(20)), "e[20]v[] done=true"),
+        ("typed-c04-then-order", c04_run(ev(1).then(ev(2))), "e[]v[1, 2] done=true"),
+        ("typed-c04-then-waits", c04_run(req(10).then(ev(9))), "e[10]v[];e[]v[5, 9] done=true"),
+        ("typed-c04-then-then", c04_run(req(10).then(req(11)).then(note(21))), "e[10]v[];e[11]v[5];e[21]v[6] done=true"),
+        ("typed-c04-and-concurrent", c04_run(req(10).and(req(11))), "e[10, 11]v[];e[]v[5, 6] done=true"),
+        ("typed-c04-all-concurrent", c04_run(Command::all([req(10), note(20), req(11)])), "e[10, 11, 20]v[];e[]v[5, 6] done=true"),
+        ("typed-c04-all-of-one", c04_run(Command::all([req(10)])), "e[10]v[];e[]v[5] done=true"),
+        ("typed-c04-done-unit-then", c04_run(Command::done().then(req(10))), "e[10]v[];e[]v[5] done=true"),
+        ("typed-c04-done-unit-and", c04_run(req(10).and(Command::done())), "e[10]v[];e[]v[5] done=true"),
+        ("typed-c04-map-event", c04_run(req(10).then(ev(1)).map_event(|e| if let Event::Got(v) = e { Event::Got(v + 100) } else { e })), "e[10]v[];e[]v[105, 101] done=true"),
+        ("typed-c04-map-event-identity", c04_run(req(10).and(note(20)).map_event(|e| e)), "e[10, 20]v[];e[]v[5] done=true"),
+        ("typed-c04-map-effect", c04_run(req(10).and(ev(3)).map_effect(|e| match e { Effect::Op(mut r) => { r.operation = Op(r.operation.0 + 1); Effect::Op(r) } other => other })), "e[11]v[3];e[]v[5] done=true"),
+        ("typed-c04-nested", c04_run(Command::all([req(10).then(req(12)), ev(1).then(req(11))]).then(note(22))), "e[10, 11]v[1];e[12]v[5, 6];e[22]v[7] done=true"),
+    ]
+}
+
 /// a tiny `next` for streams (avoids a dependency on futures' StreamExt in this driver)
 mod futures_lite_next {
     use std::future::Future;
@@ -391,6 +451,9 @@ use futures_lite_next::futures_core_stream;
 
 fn main() {
     std::panic::set_hook(Box::new(|_| {}));
+    for (name, real, expect) in c04_scenarios() {
+        println!("{name} REAL {real} | EXPECT {expect}");
+    }
     println!("typed-all-first-child-abort REAL {} | EXPECT effects=[12] events=[7] done=true aborted=false", typed_all_first_child_abort());
     println!("typed-then-stream-first-dropped REAL {} | EXPECT requests=1 done-after-drop=true", typed_then_stream_first_dropped());
     println!("typed-stream-after-consumer-gone REAL {} | EXPECT Ok,Ok,Err delivered=[11, 12]", typed_stream_after_consumer_gone());
